@@ -26,6 +26,11 @@ def cases(seed, tier, broken=()):
         out.append({"kind": "coslat_roundtrip", "container": ["DA", "DS", "LIST"][i % 3], "latname": ["lat", "latitude", "Lat", "lats"][i % 4],
                     "lats": [[-90.0, -45.0, 0.0, 45.0, 90.0], [90.0, 30.0, -30.0, -90.0], [-90.0, 90.0], sorted(float(x) for x in rng.uniform(-90, 90, size=4))][i % 4],
                     "mseed": int(rng.integers(0, 2**31)), "center": bool(i % 2)})
+    # several sample dimensions (or a sample MultiIndex) AND entirely missing samples: the stacked index has to be restored
+    # around the samples that were dropped in between
+    for i in range({"quick": 6, "thorough": 60, "search": 24}[tier]):
+        out.append({"kind": "missing_roundtrip", "container": ["DA", "DS", "LIST"][i % 3], "index": ["dims", "multi"][(i // 3) % 2],
+                    "order": i % 3, "n_missing": 1 + i % 2, "mseed": int(rng.integers(0, 2**31))})
     if tier == "thorough":
         for L in layouts.enumerate_layouts():
             L["kind"] = "roundtrip"
@@ -35,6 +40,8 @@ def cases(seed, tier, broken=()):
 
 
 def nontrivial_key(case, info):
+    if case["kind"] == "missing_roundtrip":
+        return ("missing", case["container"], case["index"], case["order"], case["n_missing"], case["mseed"])
     if case["kind"] == "coslat_roundtrip":
         return ("coslat", case["container"], case["latname"], tuple(case["lats"]), case["center"])
     return (case["container"], tuple(case["sd"]), tuple(case["fd"]), tuple(case["perm"]), tuple(sorted(case["kinds"].items())), case["names"],
@@ -117,11 +124,82 @@ def run_coslat(case):
     return {"findings": F, "info": {"dist": {"container": "coslat-" + case["container"]}}}
 
 
+def run_missing(case):
+    """(year, month, lat, lon) fields with entirely missing (year, month) samples, the two sample dimensions given as dimensions or as
+    the user's own MultiIndex: matrix and back = the input at every label that is not missing; same container, names, dimensions"""
+    from xeofs.preprocessing.preprocessor import Preprocessor
+
+    F = []
+    rng = np.random.default_rng(case["mseed"])
+    ny_, nm_, nla, nlo = 4, 3, 2, 3
+    gone = [(int(a), int(b)) for a, b in zip(rng.choice(ny_, size=case["n_missing"], replace=False), rng.choice(nm_, size=case["n_missing"], replace=False))]
+
+    def field(nlo_):
+        v = rng.normal(size=(ny_, nm_, nla, nlo_))
+        for a, b in gone:
+            v[a, b] = np.nan
+        A = xr.DataArray(v, dims=("year", "month", "lat", "lon"), coords={"year": 2000 + np.arange(ny_), "month": np.arange(1, nm_ + 1),
+                                                                          "lat": np.linspace(40, -40, nla), "lon": np.arange(nlo_) * 20.0})
+        A = A.transpose(*[("year", "month", "lat", "lon"), ("lat", "year", "lon", "month"), ("lon", "lat", "month", "year")][case["order"]])
+        return A.stack(t=("year", "month")) if case["index"] == "multi" else A
+
+    sd = ("t",) if case["index"] == "multi" else ("year", "month")
+    if case["container"] == "DA":
+        obj = field(nlo)
+    elif case["container"] == "DS":
+        obj = xr.Dataset({"a": field(nlo), "b": field(nlo)})
+    else:
+        obj = [field(nlo), field(2)]
+    cc = f"{case['container']}|{case['index']}|missing-samples"
+    info = {"dist": {"container": case["container"], "ns": len(sd), "nf": 2, "multi": case["index"] == "multi", "missing_samples": case["n_missing"]}}
+
+    def cmp(ref, got, what):
+        parts = list(zip(ref, got)) if isinstance(ref, list) else ([(ref[v], got[v]) for v in ref.data_vars] if isinstance(ref, xr.Dataset) else [(ref, got)])
+        for a, b in parts:
+            if set(a.dims) != set(b.dims):
+                return f"{what}: dims {b.dims} for input dims {a.dims}"
+            a2 = a.unstack("t") if case["index"] == "multi" else a
+            b2 = b.unstack("t") if "t" in b.dims and isinstance(b.indexes.get("t"), __import__("pandas").MultiIndex) else b
+            b2 = b2.reindex({d: a2[d].values for d in a2.dims}).transpose(*a2.dims)
+            av, bv = np.asarray(a2.values), np.asarray(b2.values)
+            ok = ~np.isnan(av)
+            if np.isnan(bv[ok]).any() or np.abs(bv[ok] - av[ok]).max() > 1e-8:
+                return f"{what}: values differ from the input at labels that are not missing"
+            if not np.isnan(bv[~ok]).all():
+                return f"{what}: values at entirely missing samples"
+        return None
+
+    try:
+        p = Preprocessor(with_center=False)
+        D = p.fit_transform(obj, sd)
+        R = p.inverse_transform_data(D)
+        if type(R) is not type(obj):
+            F.append(Finding("oracle", "roundtrip_data", cc, f"container {type(R).__name__} for {type(obj).__name__}"))
+        else:
+            r = cmp(obj, R, "fit_transform -> inverse_transform_data")
+            if r:
+                F.append(Finding("oracle", "roundtrip_data", cc, r))
+    except Exception as e:  # noqa: BLE001
+        F.append(Finding("oracle", "roundtrip_data", cc + "|raises", f"preprocessing a supported input (samples {gone} entirely missing) raised {type(e).__name__}: {str(e)[:150]}"))
+        return {"findings": F, "info": info}
+    try:
+        m = xe.single.EOF(n_modes=int(min(D.shape[0] - 1, D.shape[1])), solver="full", center=True).fit(obj, sd)
+        rec = m.inverse_transform(m.scores())
+        r = cmp(obj, rec, "inverse_transform(scores()) with all modes")
+        if r:
+            F.append(Finding("oracle", "reconstruction_structure", cc, r))
+    except Exception as e:  # noqa: BLE001
+        F.append(Finding("oracle", "model_structure", cc + "|raises", f"EOF fit / reconstruction on a supported input (samples {gone} entirely missing) raised {type(e).__name__}: {str(e)[:150]}"))
+    return {"findings": F, "info": info}
+
+
 def run(case):
     from xeofs.preprocessing.preprocessor import Preprocessor
 
     if case["kind"] == "coslat_roundtrip":
         return run_coslat(case)
+    if case["kind"] == "missing_roundtrip":
+        return run_missing(case)
     F = []
     obj = layouts.build(case)
     sd = tuple(case["sd"])
